@@ -40,3 +40,17 @@ c18 = hdr + ex("C18_stray_at", "int x @ = 1;", "a stray '@' is rejected at its o
  + ex("C18_extra_brace", "int f(void) { { return 1; }", "a duplicated { is rejected") \
  + ex("C18_swapped_kind", "int f(void) { return g(1]; }", "a bracket of the wrong kind is rejected")
 open('/verif/coq/proofs/RejectExamples.v','w').write(c18)
+
+def tex(name, text, comment):
+    o = impl_parse(text, "f.c", wc=False)
+    t = o.rsplit(US,1)[1]
+    return f'''(* {comment} *)
+Example ex_{name} :
+  ticks_of (s2l {coqstr(text)}) = {t}%N.
+Proof. vm_compute. reflexivity. Qed.
+'''
+cl = lambda k: "int x = " + "(int[" * k + "1" + "]){0}" * k + ";"
+c16 = hdr + "".join(tex(f"C16_complit_{k}", cl(k), f"witness of exponential growth: nesting depth {k}") for k in (1,2,3,4,5,6)) \
+   + tex("C16_linear_8", " ".join(f"int v{i} = {i};" for i in range(8)), "a linear family at k=8") \
+   + tex("C16_linear_16", " ".join(f"int v{i} = {i};" for i in range(16)), "... and at k=16: exactly twice the token reads")
+open('/verif/coq/proofs/CostExamples.v','w').write(c16)
